@@ -167,6 +167,15 @@ func zz16Setup(start, op int) (*zzWorld, func() error) {
 			zzMust(zz16Attest(w, "refs/heads/other"))
 		}
 		return w, func() error { return zz16Attest(w, zzMain) }
+	case 6: // reconcile staging after a change landed in the policy ref directly (propagation from a controller)
+		if start == 0 {
+			zzMust(w.zzStageAndApply(spec, w.zzBuildState(spec, []int{0}, []int{0}), 0))
+		}
+		policyTip := w.S.Ref(PolicyRef)
+		landed := w.S.RawCommit(PolicyRef, w.S.CommitInfo(policyTip).Tree, []githash.Hash{policyTip}, "propagated into policy", zzmem.Unsigned)
+		w.S.Signer = 0
+		zzMust(rsl.NewPropagationEntry(PolicyRef, landed, "https://example.com/controller", landed).Commit(w.S, true))
+		return w, func() error { return ReconcileStaging(w.S, true) }
 	default: // persistent cache commit
 		if start == 0 {
 			zzMust(w.zzStageAndApply(spec, w.zzBuildState(spec, []int{0}, []int{0}), 0))
@@ -201,7 +210,7 @@ func zz16Attest(w *zzWorld, ref string) error {
 }
 
 func HarnessC16Fault() {
-	op := verif.Concrete(verif.Choice("op", 6)) // the operations the property lists (cache commits are not among them: op 6)
+	op := verif.Concrete(verif.Choice("op", 7)) // the operations the property lists (cache commits are not among them: op 7)
 	nstart := 2
 	if op == 5 {
 		nstart = 3 // empty repository, established repository, established repository with attestations
@@ -284,7 +293,7 @@ func zz16Verdict(w *zzWorld) string {
 // verdict of the branch must be the one from before or the one from after the
 // operation.
 func HarnessC16Crash() {
-	op := verif.Concrete(verif.Choice("op", 6))
+	op := verif.Concrete(verif.Choice("op", 7))
 	// established repository only: verdicts need a policy and a recorded branch
 	ref, run := zz16Setup(1, op)
 	before := zz16Verdict(ref)
